@@ -268,8 +268,8 @@ PROPS = {
                  "(Expect.c19_socket_disciplines); the real functions are fault-enumerated on the virtual sockets (n-th create/write/read fails, "
                  "cancel at every listed instant) with open/close counters and goroutine counts.",
         "props": ["C19"],
-        "streams": [{"test": "TestResFaults", "names": ["resfaults"], "timeout": 900}],
-        "rule": "functions {arpping.Ping, dclient.sendMessage, dclient.catchReply, server.Run+handlers} x answers x {no fault, n-th socket creation fails "
+        "streams": [{"test": "TestResFaults", "names": ["resfaults"], "timeout": 300}, {"test": "TestHookShutdown", "names": ["hook"], "timeout": 120}],
+        "rule": "functions {arpping.Ping, dclient.sendMessage (broadcast and the unicast renewal path), dclient.catchReply, server.Run+handlers, the hook runner with three real scripts incl. SIGTERM-ignoring ones} x answers x {no fault, n-th socket creation fails "
                 "(n=1..6), n-th write fails (1..3), n-th read fails (1..3), cancel at 0/1/49/50/199/200/201/650/700/1500 ms}; thorough adds fault x "
                 "cancel pairs and 1500 random triples; non-trivial = at least one socket was opened",
         "trusted": ["vnet socket fakes count opens/closes per kind; runtime.NumGoroutine inside a synctest bubble",
